@@ -184,7 +184,10 @@ def ports(primary: int, e0: int, e1: int, e2: int, a0: int, a1: int, a2: int, a3
         return _LSock(('unix',))
     TcpSocketListener.listen = listen
     UnixSocketListener.listen = ulisten
-    args = ['--threadless', '--port', '8899']
+    via_flags = CFG.get('via_flags')      # concrete vectors only: the port values go through the real command-line parsing
+    args = ['--threadless', '--port', str(primary) if via_flags else '8899']
+    if via_flags and extras:
+        args += ['--ports'] + [str(x) for x in extras]
     if two_hosts:
         args += ['--hostnames', '127.0.0.2']
     if unix:
@@ -198,8 +201,9 @@ def ports(primary: int, e0: int, e1: int, e2: int, a0: int, a1: int, a2: int, a3
     # ipaddress objects hash through hex(), which CrossHair's tracer turns into a non-int: use plain stand-ins for the addresses
     px.flags.hostname = _Addr('127.0.0.1')
     px.flags.hostnames = [_Addr('127.0.0.2')] if two_hosts else []
-    px.flags.port = primary
-    px.flags.ports = list(extras)
+    if not via_flags:
+        px.flags.port = primary
+        px.flags.ports = list(extras)
     px._register_signals = lambda: None
     try:
         px.setup()
@@ -279,8 +283,21 @@ def ports(primary: int, e0: int, e1: int, e2: int, a0: int, a1: int, a2: int, a3
     return ok()
 
 
+def ports_vec(primary, e0, e1, e2):
+    return ports(primary, e0, e1, e2, 0, 0, 0, 0)
+
+
 def obligations(tier):
     obs = []
+    # every selector tuple natively through the real flag parsing (FlagParser.initialize normalises --port/--ports before setup() sees
+    # them; tracing it symbolically realises everything): concrete vectors, NOT a solver claim
+    for unix in (False, True):
+        for extra in (1, 2, 3):
+            vecs = [[p, a, b, c] for p in range(5) for a in range(5) for b in (range(5) if extra >= 2 else (0,))
+                    for c in (range(5) if extra >= 3 else (0,)) if not (unix and p != 1)]
+            obs.append({'name': 'concrete.flags.%s.extra%d' % ('unix' if unix else 'tcp', extra), 'kind': 'concrete', 'fn': 'ports_vec',
+                        'cfg': {'unix': unix, 'extra': extra, 'two_hosts': False, 'files': True, 'via_flags': True}, 'group': 'concrete',
+                        'args_list': vecs, 'timeout': 300})
     for unix in (False, True):
         for extra in (0, 1, 2, 3):
             for two in (False, True):
@@ -298,7 +315,8 @@ def obligations(tier):
 META = {
     'bounds': {
         'quick': 'primary port and 0..3 additional ports each chosen by a symbolic selector from {0, 8899, 9000, 9001, 40123} (every equality '
-                 'pattern incl. port 0; the code only compares/hashes ports); OS-assigned ports are 4 distinct concrete values; unix socket on/off; one or two listening addresses (port 0 only with one); port/pid files on/off',
+                 'pattern incl. port 0; the code only compares/hashes ports); OS-assigned ports are 4 distinct concrete values; unix socket on/off; one or two listening addresses (port 0 only with one); port/pid files on/off; '
+                 'plus, natively, every such tuple given on the command line (--port/--ports through FlagParser.initialize)',
         'thorough': 'same, all combinations',
     },
     'outside': 'NOT ENCODABLE, outside the claim: that the endpoints really accept connections, child processes, real files, IPv6 listening '
